@@ -458,9 +458,9 @@ func rC18Switches(w *World, r *Report) {
 
 func rC18OptionList(w *World, r *Report) {
 	ru := r.Rule("R18.2", "helpOutput builds the option list from the node's ChildOptions with exactly one filter (map key != option.Name: aliases) and appends the record itself", 2)
-	fn := w.Fn("getoptions.helpOutput")
+	fn := optionListBuilder(w)
 	if fn == nil {
-		ru.Undecided("anchor", "-", "helpOutput not found")
+		ru.Undecided("anchor", "-", "helpOutput (or the helper that builds its option list) not found")
 		return
 	}
 	fCO := w.Field("getoptions", "programTree", "ChildOptions")
@@ -963,6 +963,9 @@ func rC17Sections(w *World, r *Report) {
 				if strings.HasPrefix(cn, "dyn:getoptions.ArgCompletionsFn") {
 					continue // the user's own completion function for arguments
 				}
+				if h := call.Call.StaticCallee(); h != nil && h.Blocks != nil && w.PkgOfFn(h) != nil {
+					continue // analysed as a helper below
+				}
 				ru.Undecided("value-candidates/helper", w.IPos(c), "candidates produced by "+cn+" are appended wholesale: the whole-word prefix filter cannot be established")
 			}
 		}
@@ -1010,8 +1013,57 @@ func rC17Sections(w *World, r *Report) {
 			ru.Check(guarded, "value-candidates/whole-word", w.IPos(c), "appended under HasPrefix(\"--name=value\", typed word)", "a suggested value is offered without comparing the whole `--name=value` with the typed word: values of options whose name is only a prefix of the typed name leak in")
 		}
 	})
+	// helper form: completions = h(completions, …, typed) where h appends under the whole-word prefix test
+	eachInstr(m.fn, func(in ssa.Instruction) {
+		c, ok := in.(*ssa.Call)
+		if !ok || !m.inCompletionOnly(in.Block()) {
+			return
+		}
+		h := c.Call.StaticCallee()
+		if h == nil || h.Blocks == nil || w.PkgOfFn(h) == nil || h.Signature.Results().Len() != 1 || typeString(h.Signature.Results().At(0).Type()) != "[]string" {
+			return
+		}
+		if cn := calleeName(c); cn == nMatcher || strings.HasPrefix(cn, "(*sliceiterator") {
+			return
+		}
+		// parameters of h bound to the typed word at this call
+		typedParams := map[ssa.Value]bool{}
+		for i, a := range c.Call.Args {
+			if i < len(h.Params) && m.fromTyped(a) {
+				typedParams[h.Params[i]] = true
+			}
+		}
+		apps, good := 0, true
+		eachInstr(h, func(i2 ssa.Instruction) {
+			ac, ok := i2.(*ssa.Call)
+			if !ok || calleeName(ac) != "builtin:append" || typeString(ac.Type()) != "[]string" {
+				return
+			}
+			apps++
+			guarded := false
+			for _, f := range factsAt(ac.Block()) {
+				if f.Op == token.ILLEGAL && f.Truth {
+					if hc, ok := f.X.(*ssa.Call); ok && calleeName(hc) == "strings.HasPrefix" && typedParams[hc.Call.Args[1]] {
+						if sp, ok := hc.Call.Args[0].(*ssa.Call); ok && calleeName(sp) == "fmt.Sprintf" {
+							if f0, ok := constString(sp.Call.Args[0]); ok && f0 == "--%s=%s" {
+								guarded = true
+							}
+						}
+					}
+				}
+			}
+			if !guarded {
+				good = false
+			}
+		})
+		if apps == 0 {
+			return
+		}
+		n++
+		ru.Check(good, "value-candidates/helper-whole-word", w.IPos(c), "helper "+short(h)+" appends only under HasPrefix(\"--name=value\", typed word)", "helper "+short(h)+" offers values without comparing the whole `--name=value` with the typed word")
+	})
 	if n == 0 {
-		ru.Bad("value-candidates", w.Pos(m.fn.Pos()), "no inline value candidates found")
+		ru.Bad("value-candidates", w.Pos(m.fn.Pos()), "no value candidates found")
 	}
 }
 
@@ -1105,4 +1157,38 @@ func rC18Args(w *World, r *Report) {
 	if n == 0 {
 		ru.Bad("arguments/render-loop", w.Pos(fn.Pos()), "no loop renders the arguments")
 	}
+}
+
+// optionListBuilder: the function that builds the list of options handed to the help renderers: helpOutput itself,
+// or a same-package helper it calls with its node and whose result it passes on.
+func optionListBuilder(w *World) *ssa.Function {
+	ho := w.Fn("getoptions.helpOutput")
+	if ho == nil {
+		return nil
+	}
+	hasScan := func(fn *ssa.Function) bool {
+		found := false
+		fCO := w.Field("getoptions", "programTree", "ChildOptions")
+		eachInstr(fn, func(in ssa.Instruction) {
+			if rg, ok := in.(*ssa.Range); ok {
+				if b, ok := loadOfField(rg.X, fCO); ok && len(fn.Params) > 0 && b == ssa.Value(fn.Params[0]) {
+					found = true
+				}
+			}
+		})
+		return found
+	}
+	if hasScan(ho) {
+		return ho
+	}
+	for _, c := range allCalls(ho) {
+		callee := c.Common().StaticCallee()
+		if callee == nil || callee.Blocks == nil || w.PkgOfFn(callee) == nil {
+			continue
+		}
+		if len(c.Common().Args) == 1 && c.Common().Args[0] == ssa.Value(ho.Params[0]) && typeString(callee.Signature.Results().At(0).Type()) == "[]*option.Option" && hasScan(callee) {
+			return callee
+		}
+	}
+	return ho
 }
